@@ -305,6 +305,22 @@ func c13Scenarios(disk bool) []*schedScenario {
 			c.hs(0, c.L1), refreshOp(0),
 		},
 	})
+	// s13: fetch_background: a distribution point is seen for the first time while a refresh of the already known CRL
+	// is under way; once everything has come to rest the new CRL must be in force (whoever loads it)
+	scs = append(scs, &schedScenario{Name: name("s13-new-location-during-refresh-background"), Class: "background",
+		Setup: func(x *schedCtx) {
+			w := c.mkWorld(x, bg)
+			w.Net.Serve(urlA, "v1", c.v1)
+			w.Net.Serve(urlB, "vb", c.vb)
+			w.Lookup(c.L3, world.Chain(c.L3, c.p.CA, c.p.Root))
+			vsched.Drain()
+		},
+		Ops: []schedOp{refreshOp(0), c.hs(0, c.L1)},
+		Post: func(x *schedCtx) string {
+			vsched.Drain()
+			return "at-rest:" + x.W[0].Lookup(c.L1, world.Chain(c.L1, c.p.CA, c.p.Root)).String()
+		},
+	})
 	// s9: two validator instances refreshing concurrently + a handshake
 	scs = append(scs, &schedScenario{Name: name("s9-two-instances"),
 		Setup: func(x *schedCtx) {
